@@ -445,3 +445,9 @@ except Exception as e:
     print("raised", type(e).__name__)
 print("constraints now:", p.n_constraints)
 print("after failed subject_to:", p.solve().values, " fresh:", Problem().maximize(x).subject_to(x <= 3).solve().values)
+from optyx import *
+from optyx.core.vectors import VectorPowerSum
+x = VectorVariable("x", 3)
+for p in [0.5, -1, 2, 3.0]:
+    e = VectorPowerSum(x, p); e._hash = None
+    print(p, "degree:", e.degree, "second read:", e.degree, "is_linear:", e.is_linear())
